@@ -142,6 +142,10 @@ impl SimReader {
   pub fn inject(&mut self, bytes: &[u8]) {
     self.mr.handle_received_packet(&Bytes::copy_from_slice(bytes));
   }
+  /// The event loop's periodic cache-clean timer expires (real `DDSCache::garbage_collect`).
+  pub fn cache_clean(&mut self) {
+    crate::structure::dds_cache::DDSCache::verif_wrap("simr_t", self.tc.clone()).garbage_collect();
+  }
   /// Discovery announces writer `w` again with unchanged data (what `dp_event_loop` does on every
   /// SPDP refresh for the built-in readers and on repeated SEDP data for user readers).
   pub fn reannounce(&mut self, w: u8) {
@@ -177,6 +181,10 @@ impl SimReader {
   }
   pub fn frag_bytes(&self, w: u8, sn: i64, k: u8, pad: usize, f: u32) -> Vec<u8> {
     wire::datafrag_msg(&self.cc(w, sn, k, pad), self.reader_eid, f, self.cfg.frag_size, Some(Self::src_ts(w, sn)))
+  }
+  /// one DATAFRAG carrying fragments `first .. first+n`
+  pub fn frag_run_bytes(&self, w: u8, sn: i64, k: u8, pad: usize, first: u32, n: u32) -> Vec<u8> {
+    wire::datafrag_run_msg(&self.cc(w, sn, k, pad), self.reader_eid, first, n, self.cfg.frag_size, Some(Self::src_ts(w, sn)))
   }
   pub fn hb_bytes(&self, w: u8, first: i64, last: i64, count: i32, fin: bool) -> Vec<u8> {
     wire::heartbeat_msg(wguid(w), self.reader_eid, first, last, count, fin)
